@@ -995,8 +995,13 @@ pub fn suite_cap(ctx: &mut Ctx) {
                                 }
                             }
                         }
-                        o = or.end.max(o);
-                        nn = nr.end.max(nn);
+                        // only the side(s) an op consumes move on (the carried index of a Delete / Insert may be stale)
+                        if op.tag() != similar::DiffTag::Insert {
+                            o = or.end;
+                        }
+                        if op.tag() != similar::DiffTag::Delete {
+                            nn = nr.end;
+                        }
                     }
                     if bad.is_none() && (o != old.len() || nn != new.len()) {
                         bad = Some("the ops do not cover both slices".to_string());
